@@ -673,6 +673,7 @@ package ro
 //@   on complete(ctx) : emits
 
 //@ loop WhileIWithContext$1$1#0
+//@   iteration ensures lastErr == nil
 //@   iteration ensures count(callfn.condition) == 1 && count(source.SubscribeWithContext) == 1 && count(attempt.Wait) == 1 && before(callfn.condition, source.SubscribeWithContext) && before(source.SubscribeWithContext, attempt.Wait)
 
 //@ operator ConcatAll
